@@ -84,6 +84,9 @@ def gen_cases(ctx, n):
         [[C, -1, -1], [X, 0, 0], [G.MUL, 0, 1], [C, -1, -1], [G.MUL, 2, 3], [G.ADD, 4, 0]],
         [[C, -1, -1], [I, 2, 2], [G.MUL, 0, 1], [X, 0, 0], [G.ADD, 2, 3], [G.SIN, 4, 4], [C, -1, -1], [G.MUL, 5, 6]],
         [[X, 0, 0], [C, -1, -1], [G.POW, 0, 1], [C, -1, -1], [G.POW, 2, 3]],
+        [[X, 0, 0], [I, 2, 2], [G.POW, 0, 1], [C, -1, -1], [G.POW, 2, 3]],     # (x^2)^c   (F19)
+        [[X, 0, 0], [C, -1, -1], [G.POW, 0, 1], [I, 3, 3], [G.POW, 2, 3]],     # (x^c)^3
+        [[X, 0, 0], [X, 1, 1], [G.MUL, 0, 1], [I, 2, 2], [G.POW, 2, 3], [C, -1, -1], [G.POW, 4, 5]],   # ((xy)^2)^c
         [[I, 3, 3], [G.POW, 0, 0], [G.POW, 1, 1]],     # 27^27: int64 wrap (known finding)
     ]
     cases += [("targeted", st, 2) for st in T]
@@ -198,6 +201,7 @@ def run(ctx, rep):
                 meta.append(("renumber", case, (nconst, simp)))
         # ---------- oracle (b): CAS
         changed = cas_oracle(ctx, rep, st, D, case)
+        cas_constants_oracle(ctx, rep, st, D, case)
         rep.case(st, nontrivial or changed)
         rep.sample({"stack": G.describe(st), "reduced": None if r is None else G.describe(r)})
     # malformed stream for util / reduce
@@ -290,9 +294,14 @@ def cas_oracle(ctx, rep, st, D, case):
         return changed
     power = has_power(cf)
     ovf = int_overflow(cf) or any(r[0] == G.INTEGER and abs(r[1]) >= 2 ** 53 for r in o2)
-    npts = 3
-    for _ in range(npts):
+    npts = 3 if D2 == D else 6
+    for ipt in range(npts):
         x = [G.nice_value(rng) for _ in range(D2)]
+        if ipt >= 3:
+            # constants (now variables D..D2-1) at half-integers, data at small integers: points where power expressions
+            # such as (x^2)^c are finite on both sides although the base is negative
+            x = [float(rng.choice([-3, -2, -1, 1, 2, 3])) if rng.random() < 0.7 else G.nice_value(rng) for _ in range(D)] + \
+                [rng.choice([0.5, 1.5, -0.5, 2.5, -1.5]) for _ in range(D2 - D)]
         try:
             a, mx = mp_eval(cf, x, [], want_max=True)
             b = mp_eval(o2, x, [])
@@ -323,6 +332,71 @@ def cas_oracle(ctx, rep, st, D, case):
             rep.violate("CAS: " + bad, key, {"stack": cf, "D": D2, "simplified": o2, "x": [float(v) for v in x]})
             break
     return changed
+
+
+def expr_has_power(e):
+    if e.operator in (G.INTEGER, G.VARIABLE, G.CONSTANT):
+        return False
+    return e.operator in (G.POW, G.SPOW) or any(expr_has_power(o) for o in e.operands)
+
+
+def cas_constants_oracle(ctx, rep, st, D, case):
+    """`automatic_simplify` with the constants KEPT as constants (rewrites that fire only for CONSTANT operands, e.g.
+    power-of-a-power with a constant exponent, are invisible once constants are turned into variables): the expression
+    before and after `automatic_simplify` carries the same constant ids, so both are evaluated with the same generic
+    constant values -- no witness search is needed at this stage"""
+    if not any(r[0] == G.CONSTANT for r in st):
+        return
+    from bingo.symbolic_regression.agraph.simplification_backend.interpreter import build_cas_expression
+    from bingo.symbolic_regression.agraph.simplification_backend.automatic_simplification import automatic_simplify
+    from harness.mpeval import mp_eval_expr
+    rng = ctx.rng
+    try:
+        with watchdog(5.0):
+            e0 = build_cas_expression(np.array(st, dtype=int).reshape(-1, 3))
+            e1 = automatic_simplify(e0)
+    except Timeout:
+        return
+    except Exception:
+        return          # raising is reported by cas_oracle
+    power = expr_has_power(e0) or any(r[0] in (G.POW, G.SPOW) for r, u in zip(st, G.utilized(st)) if u)
+    ovf = int_overflow(st)
+    cvals = {}
+    for ipt in range(5):
+        half = ipt >= 2
+        x = [float(rng.choice([-3, -2, -1, 1, 2, 3])) if (half and rng.random() < 0.7) else G.nice_value(rng) for _ in range(D)]
+        cvals.clear()
+
+        def cval(i):
+            if i not in cvals:
+                cvals[i] = rng.choice([0.5, 1.5, -0.5, 2.5, -1.5]) if half else G.nice_value(rng) * 1.0371
+            return cvals[i]
+        try:
+            a = mp_eval_expr(e0, x, cval)
+            b = mp_eval_expr(e1, x, cval)
+        except (Skip, RecursionError):
+            rep.count("cas_const_point", "skipped")
+            continue
+        except Exception:
+            rep.count("cas_const_point", "skipped")
+            continue
+        if a is UNDEF:
+            rep.count("cas_const_point", "original undefined")
+            continue
+        if b is UNDEF:
+            if power:
+                rep.count("cas_const_point", "simplified undefined (powers)")
+                continue
+            bad = "automatic_simplify result is undefined where the power-free original is defined"
+        else:
+            tol = mpmath.mpf("1e-30") * max(1, abs(a), abs(b))
+            bad = None if abs(a - b) <= tol else f"automatic_simplify changes the value with the constants kept: {mpmath.nstr(a, 15)} vs {mpmath.nstr(b, 15)}"
+        if bad is None:
+            rep.count("cas_const_point", "agree")
+        else:
+            rep.violate("CAS: " + bad, "C03:F3b-int64-wrap" if ovf else "C03:cas-value",
+                        {**case, "x": x, "constants_by_row": dict(cvals)})
+            break
 
 
 def cas_correspondence(ctx, rep, cases):
